@@ -161,7 +161,8 @@ func MustNewPush(ctx *Context, cmd uint32, body interface{}, opts ...PacketOptio
 }
 
 func MustNewRequest(ctx *Context, cmd uint32, body interface{}, opts ...PacketOption) Packet {
-	opts = append(opts, WithRequestId(ctx.NextReqId()))
+	// append to a copy: the caller's slice may have spare capacity and may be shared between goroutines
+	opts = append(opts[:len(opts):len(opts)], WithRequestId(ctx.NextReqId()))
 
 	p, e := NewPacket(ctx, RequestPacket, cmd, body, opts...)
 
@@ -173,7 +174,8 @@ func MustNewRequest(ctx *Context, cmd uint32, body interface{}, opts ...PacketOp
 }
 
 func NewRequest(ctx *Context, cmd uint32, body interface{}, opts ...PacketOption) (Packet, error) {
-	opts = append(opts, WithRequestId(ctx.NextReqId()))
+	// append to a copy: the caller's slice may have spare capacity and may be shared between goroutines
+	opts = append(opts[:len(opts):len(opts)], WithRequestId(ctx.NextReqId()))
 
 	return NewPacket(ctx, RequestPacket, cmd, body, opts...)
 }
